@@ -563,7 +563,9 @@ def oracle_chem(spec, Ts, Ps):
     P = Ps[0]
     hv = spec['hvap_val']
     if not close(H('g', Tb, P) - H('l', Tb, P), hv): return f'jump_vap{tag}: H(g,Tb) - H(l,Tb) = {H("g", Tb, P) - H("l", Tb, P)} != Hvap(Tb) = {hv}'
-    if not close(S('g', Tb, P) - S('l', Tb, P), hv / Tb): return f'jump_vap{tag}: S(g,Tb) - S(l,Tb) = {S("g", Tb, P) - S("l", Tb, P)} != Hvap(Tb)/Tb = {hv / Tb}'
+    want = hv / Tb - R_GAS * math.log(P / P_REF)
+    if not close(S('g', Tb, P) - S('l', Tb, P), want): return f'jump_vap{tag}: S(g,Tb,{P}) - S(l,Tb,{P}) = {S("g", Tb, P) - S("l", Tb, P)} != Hvap(Tb)/Tb - R ln(P/P_ref) = {want}'
+    if not close(S('g', Tb, P_REF) - S('l', Tb, P_REF), hv / Tb): return f'jump_vap{tag}: S(g,Tb) - S(l,Tb) at P_ref = {S("g", Tb, P_REF) - S("l", Tb, P_REF)} != Hvap(Tb)/Tb = {hv / Tb}'
     if not close(H('l', Tm, P) - H('s', Tm, P), spec['Hfus']): return f'jump_fus{tag}: H(l,Tm) - H(s,Tm) = {H("l", Tm, P) - H("s", Tm, P)} != Hfus = {spec["Hfus"]}'
     if not close(S('l', Tm, P) - S('s', Tm, P), spec['Sfus']): return f'jump_fus{tag}: S(l,Tm) - S(s,Tm) = {S("l", Tm, P) - S("s", Tm, P)} != Sfus = {spec["Sfus"]}'
     return None
